@@ -26,6 +26,8 @@ pub enum SEv {
     Finish,
     /// new option bits (phonetic: pcfg bits; fixed: xcfg bits), edit of the user auto-correct file before the call
     Update(u32, UacEdit),
+    /// update_engine with another layout (new layout path, new option bits for that method)
+    UpdateLayout(String, u32),
     /// drop the context and create a new one over the same user directory
     Restart,
 }
@@ -38,6 +40,7 @@ impl SEv {
             SEv::Commit(i) => json!({"commit": i}),
             SEv::Finish => json!("finish"),
             SEv::Update(b, e) => json!({"update_engine": {"option_bits": b, "user_autocorrect_edit": format!("{:?}", e)}}),
+            SEv::UpdateLayout(l, b) => json!({"update_engine": {"layout": l, "option_bits": b}}),
             SEv::Restart => json!("restart"),
         }
     }
@@ -191,18 +194,47 @@ impl Session {
     pub fn new(w: &mut Worker2, opts: Opts, uac: Option<&Map>, sels: Option<&Map>, tag: &str) -> Result<Session, String> {
         Session::create(w, opts, uac, sels, tag, None)
     }
+    /// Like `new`, with the two user files given as raw bytes and an optional fault of the user-data directory:
+    /// "missing" (never created) or "file" (a regular file sits where the directory should be).
+    pub fn new_faulty(w: &mut Worker2, mut opts: Opts, uac: Option<&[u8]>, sels: Option<&[u8]>, dir_fault: &str, tag: &str) -> Result<Session, String> {
+        let dir = Scratch::new(tag);
+        opts.user_home = dir.path().to_path_buf();
+        match dir_fault {
+            "missing" => {}
+            "file" => { std::fs::write(opts.user_dir(), b"not a directory").map_err(|e| e.to_string())?; }
+            _ => {
+                std::fs::create_dir_all(opts.user_dir()).map_err(|e| e.to_string())?;
+                if let Some(b) = uac { std::fs::write(opts.user_dir().join("autocorrect.json"), b).map_err(|e| e.to_string())?; }
+                if let Some(b) = sels { std::fs::write(opts.user_dir().join("phonetic-candidate-selection.json"), b).map_err(|e| e.to_string())?; }
+            }
+        }
+        let home = opts.user_home.clone();
+        let mut s = Session::create_in(w, opts, tag, home, json!({"user_autocorrect_bytes": uac.map(|b| String::from_utf8_lossy(b).to_string()), "selection_bytes": sels.map(|b| String::from_utf8_lossy(b).to_string()), "directory": dir_fault}))?;
+        s.dir = Some(dir);
+        Ok(s)
+    }
     fn create(w: &mut Worker2, mut opts: Opts, uac: Option<&Map>, sels: Option<&Map>, tag: &str, home: Option<std::path::PathBuf>) -> Result<Session, String> {
         let dir = if home.is_none() { Some(Scratch::new(tag)) } else { None };
         opts.user_home = home.unwrap_or_else(|| dir.as_ref().unwrap().path().to_path_buf());
         std::fs::create_dir_all(opts.user_dir()).map_err(|e| e.to_string())?;
         if let Some(m) = uac { std::fs::write(opts.user_dir().join("autocorrect.json"), map_json(m)).map_err(|e| e.to_string())?; }
         if let Some(m) = sels { std::fs::write(opts.user_dir().join("phonetic-candidate-selection.json"), map_json(m)).map_err(|e| e.to_string())?; }
+        let home = opts.user_home.clone();
+        let mut s = Session::create_in(w, opts, tag, home, json!({"user_autocorrect": uac.map(|m| map_json(m)), "selections": sels.map(|m| map_json(m))}))?;
+        s.dir = dir;
+        Ok(s)
+    }
+    fn create_in(w: &mut Worker2, mut opts: Opts, _tag: &str, home: std::path::PathBuf, files: Value) -> Result<Session, String> {
+        opts.user_home = home;
+        let (uac, sels): (Option<&Map>, Option<&Map>) = (None, None);
+        let dir: Option<Scratch> = None;
         let phonetic = opts.is_phonetic();
         let layout_tag = if phonetic { "avro".to_string() } else if opts.layout.ends_with("Probhat.json") { "p".into() } else { "s".into() };
         let cfg = Cfg::new(&opts);
         let ctx = Ctx::new(&cfg)?;
+        let _ = (uac, sels);
         let initial = json!({"layout": opts.layout, "database": opts.database, "option_bits": if phonetic { pbits(&opts) } else { xbits(&opts) },
-            "options": format!("{:?}", opts), "user_autocorrect": uac.map(|m| map_json(m)), "selections": sels.map(|m| map_json(m))});
+            "options": format!("{:?}", opts), "user_files": files});
         let mut s = Session { phonetic, layout_tag, opts, cfg, ctx, dir, history: vec![], initial, loaded_mtime: None, clock: 0, model_dead: false, id: format!("s{}", NEXT_ID.fetch_add(1, std::sync::atomic::Ordering::Relaxed)) };
         s.model_new(w)?;
         Ok(s)
@@ -264,6 +296,16 @@ impl Session {
                 }
                 o
             }
+            SEv::UpdateLayout(layout, bits) => {
+                self.opts.layout = layout.clone();
+                self.phonetic = self.opts.is_phonetic();
+                if self.phonetic { set_pbits(&mut self.opts, *bits) } else { set_xbits(&mut self.opts, *bits); self.opts.phonetic_suggestion = false; }
+                self.layout_tag = if self.phonetic { "avro".to_string() } else if self.opts.layout.ends_with("data/Probhat.json") { "p".into() } else if self.opts.layout.ends_with("synthetic.json") { "s".into() } else { "?".into() };
+                let newcfg = Cfg::new(&self.opts);
+                let o = self.ctx.update(&newcfg);
+                self.cfg = newcfg;
+                o
+            }
             SEv::Restart => {
                 let cfg = Cfg::new(&self.opts);
                 match Ctx::new(&cfg) {
@@ -277,6 +319,7 @@ impl Session {
         let model = if self.model_dead { "DEAD".to_string() } else {
             match ev {
                 SEv::Restart => match self.model_new(w) { Ok(()) => "U:0".to_string(), Err(e) => format!("E {}", e) },
+                SEv::UpdateLayout(..) => if self.layout_tag == "?" { self.model_dead = true; "DEAD".to_string() } else { match self.model_new(w) { Ok(()) => "U:0".to_string(), Err(e) => format!("E {}", e) } },
                 _ => match w.ask_db(self.opts.database, &format!("{} {} {}", if self.phonetic { "PEV" } else { "XEV" }, self.id, mev.unwrap())) { Ok(r) => r, Err(e) => format!("E {}", e) },
             }
         };
@@ -321,4 +364,72 @@ pub fn fixed_equiv(imp: &str, model: &str) -> bool {
         }
     }
     true
+}
+
+// ------------------------------------------------------------------------------------------------ replay
+
+impl SEv {
+    pub fn from_json(v: &Value) -> Option<SEv> {
+        if let Some(s) = v.as_str() {
+            return match s { "finish" => Some(SEv::Finish), "restart" => Some(SEv::Restart), _ => None };
+        }
+        if let Some(k) = v.get("key") {
+            return Some(SEv::Key(k.as_u64()? as u16, v["modifier"].as_u64().unwrap_or(0) as u8, v["selection"].as_u64().unwrap_or(0) as u8));
+        }
+        if let Some(b) = v.get("backspace") { return Some(SEv::Back(b["ctrl"].as_bool().unwrap_or(false))); }
+        if let Some(c) = v.get("commit") { return Some(SEv::Commit(c.as_u64()? as usize)); }
+        if let Some(u) = v.get("update_engine") {
+            if let Some(l) = u.get("layout") { return Some(SEv::UpdateLayout(l.as_str()?.to_string(), u["option_bits"].as_u64()? as u32)); }
+            let e = u["user_autocorrect_edit"].as_str().unwrap_or("Keep");
+            let edit = if e.starts_with("Delete") { UacEdit::Delete } else if e.starts_with("Write") {
+                // Write([("k", "v"), ...])
+                let mut m = Vec::new();
+                let mut rest = e;
+                while let Some(i) = rest.find("(\"") {
+                    let r = &rest[i + 2..];
+                    let a = r.find("\", \"")?;
+                    let k = &r[..a];
+                    let r2 = &r[a + 4..];
+                    let b = r2.find("\")")?;
+                    m.push((k.to_string(), r2[..b].to_string()));
+                    rest = &r2[b..];
+                }
+                UacEdit::Write(m)
+            } else if e.starts_with("Raw") {
+                let inner = e.trim_start_matches("Raw([").trim_end_matches("])");
+                UacEdit::Raw(inner.split(',').filter_map(|x| x.trim().parse::<u8>().ok()).collect())
+            } else { UacEdit::Keep };
+            return Some(SEv::Update(u["option_bits"].as_u64()? as u32, edit));
+        }
+        None
+    }
+}
+
+/// Re-runs a recorded session ({"initial": .., "events": [..]}) on the implementation and the model and prints both.
+pub fn replay(data: std::sync::Arc<Data>, case: &Value) -> i32 {
+    let sess = if case.get("initial").is_some() { case } else if case.get("session").is_some() { &case["session"] } else { case };
+    let init = &sess["initial"];
+    let home = std::path::PathBuf::from("/nonexistent");
+    let layout = init["layout"].as_str().unwrap_or(PHONETIC).to_string();
+    let mut o = if layout == PHONETIC { Opts::phonetic(&home) } else { Opts::fixed(&layout, &home) };
+    let bits = init["option_bits"].as_u64().unwrap_or(2) as u32;
+    if layout == PHONETIC { set_pbits(&mut o, bits) } else { set_xbits(&mut o, bits) }
+    o.database = init["database"].as_bool().unwrap_or(true);
+    let files = &init["user_files"];
+    let getb = |k1: &str, k2: &str| -> Option<Vec<u8>> { files.get(k1).and_then(|v| v.as_str()).or_else(|| files.get(k2).and_then(|v| v.as_str())).map(|s| s.as_bytes().to_vec()) };
+    let (uac, sels) = (getb("user_autocorrect", "user_autocorrect_bytes"), getb("selections", "selection_bytes"));
+    let mut w = Worker2::new(data);
+    let mut s = match Session::new_faulty(&mut w, o, uac.as_deref(), sels.as_deref(), files.get("directory").and_then(|v| v.as_str()).unwrap_or("ok"), "replay") {
+        Ok(s) => s,
+        Err(e) => { println!("context creation: PANIC {}", e); return 1; }
+    };
+    let evs: Vec<SEv> = sess["events"].as_array().map(|a| a.iter().filter_map(SEv::from_json).collect()).unwrap_or_default();
+    let mut rc = 0;
+    for (n, e) in evs.iter().enumerate() {
+        let st = s.step(&mut w, e);
+        let same = if s.phonetic { st.imp == st.model } else { fixed_equiv(&st.imp, &st.model) };
+        println!("event {:3} {}\n    implementation: {}\n    model:          {}{}", n, e.json(), crate::ph::explain(&st.imp), crate::ph::explain(&st.model), if same { "" } else { "\n    ** differ **" });
+        if st.imp.starts_with("PANIC") { rc = 1; }
+    }
+    rc
 }
